@@ -982,3 +982,24 @@ def prob_terms(text):
     from . import terms as T
     res = get_evaluatable().create_from(PrologString(text)).evaluate()
     return {"answers": [[T.from_problog(k, {}), float(v)] for k, v in res.items()]}
+
+
+# ------------------------------------------------------------------ C20 MPE
+def mpe(text, use_semiring=False):
+    from problog.program import PrologString
+    from problog.formula import LogicDAG, LogicFormula
+    from problog.tasks.mpe import mpe_maxsat, mpe_semiring
+    if use_semiring:
+        lf = LogicFormula.create_from(PrologString(text), label_all=True, avoid_name_clash=True)
+        prob, facts = mpe_semiring(lf)
+    else:
+        dag = LogicDAG.createFrom(PrologString(text), avoid_name_clash=True, label_all=True, labels=[("output", 1)])
+        prob, facts = mpe_maxsat(dag)
+    if facts is None:
+        return {"unsat": True, "prob": None, "facts": []}
+    out = []
+    for f in facts:
+        neg = f.is_negated() if hasattr(f, "is_negated") else False
+        a = -f if neg else f
+        out.append([str(a), 0 if neg else 1])
+    return {"unsat": False, "prob": float(prob) if prob is not None else None, "facts": out}
